@@ -258,8 +258,8 @@ def collect(tier, props):
     return viol, tot, samples
 
 
-def check(prop, tier, seed):
-    v = Verdict(prop, tier, seed)
+def check(prop, tier, seed, into=None):
+    v = into or Verdict(prop, tier, seed)
     viol, tot, samples = collect(tier, ["C16"])
     for p, sig, d in viol:
         if p == "C16":
